@@ -142,10 +142,11 @@ enum Op {
     SecretTryFromArray { s: usize },
     /// expose_* and equality on a live secret-bearing object
     Expose { obj: usize },
-    NullifierNew { s: usize, tc: u64 },
+    /// `pd`: class of the caller-supplied PUBLIC digest stored next to the secret (see `public_digest`)
+    NullifierNew { s: usize, tc: u64, #[serde(default)] pd: u8 },
     NullifierFromPreimage { s: usize, tc: u64 },
     NullifierFromInputs { s: usize, tc: u64 },
-    AccountNew { s: usize },
+    AccountNew { s: usize, #[serde(default)] pd: u8 },
     AccountFromSecret { s: usize },
     AccountFromInputs { s: usize, tc: u64 },
     InputsNew { s: usize, tc: u64 },
@@ -171,6 +172,28 @@ enum Obj {
     Inputs(Box<CircuitInputs>),
     Bytes(zeroize::Zeroizing<Vec<u8>>, bool),
     Felts(SensitiveFelts, bool),
+}
+
+/// The public digest a caller hands to `Nullifier::new` / `UnspendableAccount::new`. It is not secret, but it
+/// leads the buffers `to_bytes` / `to_field_elements` return, so code that decides anything about the scrub
+/// from the buffer's own contents meets these values first. 0: ordinary constant; 1: all-zero placeholder;
+/// 2: low limb zero; 3: only the low limb non-zero; 4: last limb zero; 5: every limb the value one.
+fn public_digest(pd: u8, base: u8) -> BytesDigest {
+    let mut b = [base; 32];
+    match pd {
+        1 => b = [0u8; 32],
+        2 => b[..8].fill(0),
+        3 => b[8..].fill(0),
+        4 => b[24..].fill(0),
+        5 => {
+            b = [0u8; 32];
+            for l in 0..4 {
+                b[l * 8] = 1;
+            }
+        }
+        _ => {}
+    }
+    BytesDigest::try_from(b).expect("canonical public digest")
 }
 
 fn felts_le_bytes(f: &[F]) -> Vec<u8> {
@@ -275,10 +298,10 @@ fn random_sequence(rng: &mut Rng) -> Sequence {
             3 => Op::SecretFromFelts { s },
             4 => Op::SecretTryFromArray { s },
             5 => Op::Expose { obj },
-            6 => Op::NullifierNew { s, tc },
+            6 => Op::NullifierNew { s, tc, pd: rng.below(6) as u8 },
             7 | 8 => Op::NullifierFromPreimage { s, tc },
             9 => Op::NullifierFromInputs { s, tc },
-            10 => Op::AccountNew { s },
+            10 => Op::AccountNew { s, pd: rng.below(6) as u8 },
             11 | 12 => Op::AccountFromSecret { s },
             13 => Op::AccountFromInputs { s, tc },
             14 => Op::InputsNew { s, tc },
@@ -415,13 +438,13 @@ fn execute(seq: &Sequence, scan_for: &[[u8; 32]], real_secrets: &[[u8; 32]], can
                     }
                 }
             }
-            Op::NullifierNew { s, tc } => put(&mut pool, Obj::Nullifier(Box::new(Nullifier::new(BytesDigest::try_from([0x11u8; 32]).unwrap(), digests[*s], *tc)))),
+            Op::NullifierNew { s, tc, pd } => put(&mut pool, Obj::Nullifier(Box::new(Nullifier::new(public_digest(*pd, 0x11), digests[*s], *tc)))),
             Op::NullifierFromPreimage { s, tc } => put(&mut pool, Obj::Nullifier(Box::new(Nullifier::from_preimage(digests[*s], *tc)))),
             Op::NullifierFromInputs { s, tc } => {
                 let inputs = make_inputs(digests[*s], *tc);
                 put(&mut pool, Obj::Nullifier(Box::new(Nullifier::from(&inputs))));
             }
-            Op::AccountNew { s } => put(&mut pool, Obj::Account(Box::new(UnspendableAccount::new(BytesDigest::try_from([0x12u8; 32]).unwrap(), digests[*s])))),
+            Op::AccountNew { s, pd } => put(&mut pool, Obj::Account(Box::new(UnspendableAccount::new(public_digest(*pd, 0x12), digests[*s])))),
             Op::AccountFromSecret { s } => put(&mut pool, Obj::Account(Box::new(UnspendableAccount::from_secret(digests[*s])))),
             Op::AccountFromInputs { s, tc } => {
                 let inputs = make_inputs(digests[*s], *tc);
